@@ -10,9 +10,9 @@ def section():
     send = sorted(c for cmds, cls in parser.CIP.COMMAND_PARSERS.items() if cls is parser.send_data for c in cmds)
     out.append("def sendDataCommands : List Nat := [" + ", ".join(map(str, send)) + "]")
     unc = [t for t, cls in parser.CPF.ITEM_PARSERS.items() if cls is parser.unconnected_send]
-    out.append(f"def cpfUnconnected : Nat := {unc[0]}")
-    out.append("def cpfItemTypes : List Nat := [" + ", ".join(map(str, sorted(parser.CPF.ITEM_PARSERS))) + "]")
-    out.append(f"def cmClass : Nat := {device.Connection_Manager.class_id}")
+    # out.append(f"def cpfUnconnected : Nat := {unc[0]}")   (also emitted, identically, by extract.d/session.py: defined once there)
+    # out.append("def cpfItemTypes : List Nat := [" + ", ".join(map(str, sorted(parser.CPF.ITEM_PARSERS))) + "]")   (also emitted, identically, by extract.d/session.py: defined once there)
+    # out.append(f"def cmClass : Nat := {device.Connection_Manager.class_id}")   (also emitted, identically, by extract.d/session.py: defined once there)
     # the Unconnected Send service code: the one first byte for which unconnected_send parses a routing wrapper
     import cpppo
     svc = []
